@@ -658,4 +658,23 @@ theorem queries_good : ∀ (ops : List QOp) (c : Conv Rat), Good c.st → ValidH
     intro c hg hv
     exact ih _ (QOp.after_good c hg o hv.1) hv.2
 
+theorem QOp.ok_mono {c c' : Conv Rat} (hf : CFrame c c') {o : QOp} (h : o.ok c) : o.ok c' := by
+  cases o <;> first | exact trivial | exact ⟨hf.lt h.1, hf.lt h.2⟩
+
+/-- queries about units that exist at the start are valid at every later moment (nothing is ever removed) -/
+theorem validHistory_of_initial : ∀ (ops : List QOp) (c : Conv Rat), (∀ o ∈ ops, o.ok c) → ValidHistory c ops := by
+  intro ops
+  induction ops with
+  | nil => intro c _; exact trivial
+  | cons o rest ih =>
+    intro c h
+    refine ⟨h o List.mem_cons_self, ih _ ?_⟩
+    intro o' ho'
+    exact QOp.ok_mono (QOp.after_frame c o) (h o' (List.mem_cons_of_mem _ ho'))
+
+/-- in particular: any history of queries about units that exist in a good state keeps the table good -/
+theorem queries_good_of_initial (ops : List QOp) (c : Conv Rat) (hg : Good c.st) (h : ∀ o ∈ ops, o.ok c) :
+    Good (ops.foldl QOp.after c).st :=
+  queries_good ops c hg (validHistory_of_initial ops c h)
+
 end Measured
